@@ -17,6 +17,7 @@
 #include "parsers/union_parser.h"
 
 #include <algorithm>
+#include <cstdlib>
 #include <cctype>
 #include <fstream>
 #include <iostream>
@@ -2212,6 +2213,31 @@ std::string RecursiveParser::resolveModulePath(const std::string &module_path) {
  *
  * これにより、import後に型を使用する際にParser側で型が認識される
  */
+namespace {
+std::set<std::string> &imports_in_progress() {
+    static std::set<std::string> paths;
+    return paths;
+}
+} // namespace
+
+// The same file can be reached through different spellings (sm.cb, ./sm.cb,
+// ../dir/sm.cb): the canonical path identifies it.
+RecursiveParser::ImportInProgress::ImportInProgress(
+    const std::string &file_path)
+    : key_(file_path), entered_(false) {
+    if (char *canonical = realpath(file_path.c_str(), nullptr)) {
+        key_ = canonical;
+        free(canonical);
+    }
+    entered_ = imports_in_progress().insert(key_).second;
+}
+
+RecursiveParser::ImportInProgress::~ImportInProgress() {
+    if (entered_) {
+        imports_in_progress().erase(key_);
+    }
+}
+
 void RecursiveParser::processImport(
     const std::string &module_path,
     const std::vector<std::string> &import_items) {
@@ -2223,15 +2249,10 @@ void RecursiveParser::processImport(
     // a -> b -> a, would recurse without end: a module whose import is already
     // in progress further up is not entered again (its definitions are being
     // collected there).
-    static std::set<std::string> imports_in_progress;
-    if (!imports_in_progress.insert(resolved_path).second) {
+    ImportInProgress import_in_progress(resolved_path);
+    if (!import_in_progress.entered()) {
         return;
     }
-    struct ImportInProgress {
-        std::set<std::string> &paths;
-        std::string path;
-        ~ImportInProgress() { paths.erase(path); }
-    } import_in_progress{imports_in_progress, resolved_path};
 
     if (debug_mode_) {
         std::cerr << "[IMPORT] Processing import: " << module_path << " -> "
